@@ -426,6 +426,8 @@ def no_proposals_label(texts, q, kind):
     if not q['insert'] and texts.package_rebound_by_star(q['file'], q['expr']):
         # one mechanism whatever the query kind: `import P.M` made P.M visible, a later star import re-binds P
         return 'no-proposals:package-name-rebound-by-later-star-import'
+    if q['insert'] and q['insert'].get('replace'):
+        return 'no-proposals:%s:in-class-body-lambda' % kind
     if q['insert'] and texts.insert_in_async_method(q['file'], q.get('cls'), q['insert']['line']):
         return 'no-proposals:%s:in-async-method' % kind
     return 'no-proposals:%s:via=%s' % (kind, q['via'])
@@ -464,6 +466,9 @@ def check_query(part, project, root, q, desc, only_attr=None):
     kind = q['kind']
     part.count('queries')
     part.hist('query_kind', kind)
+    if (q['insert'] or {}).get('replace'):
+        part.count('self_queries_inside_class_body_lambdas')
+        part.hist('class_body_lambda_forms', q['sub'].split('(')[1].split(')')[0])
     part.hist('reached_via', q['via'])
 
     def case(extra):
@@ -857,7 +862,8 @@ def check_project(part, project, root, oracle, key, only=None):
         part.hist('features', f)
     meta = project.get('meta', {})
     for k in ('n_classes', 'n_function_members', 'n_async_methods', 'n_async_methods_assigning',
-              'n_classes_with_async_method', 'n_methods_with_nested_functions', 'n_conditional_exports'):
+              'n_classes_with_async_method', 'n_methods_with_nested_functions', 'n_conditional_exports',
+              'n_class_body_lambdas'):
         if meta.get(k):
             part.count('generated_' + k[2:], meta[k])
     for f in project.get('meta', {}).get('import_forms', []):
